@@ -3,13 +3,15 @@
 // real TCP cut at EVERY byte offset (2-way), byte-at-a-time and at random k-way cuts, in RESP and telnet
 // framing. The reply bytes must be those of the same stream sent one command per segment.
 //
-// Model tie: coq/Model/PipelineLive.v (driver ocaml/pipelive). The model run with the PINNED hand-over
-// (carry-over buffer kept, rest of the hand-over read forgotten, a live loop drops the messages of a read
-// that ends in a malformed frame) says, for a given sequence of reads, which commands are handled at all.
-// A reply stream that differs from the reference is explained only if it is the reference of exactly the
-// commands the pinned model handles for the segmentation that was sent (or for a coarsening of it: two
-// segments written a few ms apart may reach the server in one read) — that is one of the two open known
-// findings; everything else is a failure with the stream and the cut as the failing input.
+// Model tie: coq/Model/PipelineLive.v (driver ocaml/pipelive). The source's hand-over is ho_repaired
+// (c16_live_chunking_source): every segmentation must give the reference replies. A reply stream that
+// differs is first compared with what the model predicts for the hand-over BEFORE the repairs
+// C16-live-handover-drops-rest / C16-live-error-drops-read (ho_pinned: rest of the hand-over read
+// forgotten, a live loop drops the messages of a read that ends in a malformed frame) on the segmentation
+// that was sent or a coarsening of it (two segments written a few ms apart may reach the server in one
+// read): if exactly the commands that model leaves unhandled are missing, the failure gets the signature
+// of that (fixed) defect — a regression of the repair —, otherwise bb-live-segmentation-replies. Either
+// way it is a failure with the stream and the cut as the failing input.
 package main
 
 import (
@@ -502,11 +504,12 @@ func runLiveHandover(r *hx.Result, cfg hx.Config, rng *rand.Rand) {
 		case "ok":
 		case "known":
 			sig := "bb-live-handover-drops-rest"
-			what := "commands that arrive in the same read as the command that switches the connection to live mode are never handled (pinned netServe leaves `for _, msg := range msgs` at the hand-over; the model with the pinned hand-over predicts exactly these replies)"
+			what := "commands that arrive in the same read as the command that switches the connection to live mode are not handled (regression of the repair C16-live-handover-drops-rest: the model with the hand-over before the repair, ho_pinned, predicts exactly these replies)"
 			if pred.dropErr && !pred.dropHO {
 				sig = "bb-live-error-drops-read"
-				what = "a live connection does not handle the commands parsed before a malformed frame of the same read (liveSubscription returns on the error first; the model with the pinned live loop predicts exactly these replies)"
+				what = "a live connection does not handle the commands parsed before a malformed frame of the same read (regression of the repair C16-live-error-drops-read: the model with the live loop before the repair predicts exactly these replies)"
 			}
+			what = fmt.Sprintf("stream %s cut at %v (%s): replies %s, but %s when sent one command per segment — %s", q(st.bytes()), j.offs, j.kind, strconv.Quote(j.got), strconv.Quote(fullRef[j.si]), what)
 			known[sig]++
 			r.Fail(hx.Failure{Kind: "oracle", Signature: sig, What: what,
 				Case: map[string]interface{}{"stream": st.String(), "bytes": q(st.bytes()), "cuts": j.offs, "handled": pred.handled}, Impl: strconv.Quote(j.got), Model: strconv.Quote(fullRef[j.si])})
@@ -514,7 +517,7 @@ func runLiveHandover(r *hx.Result, cfg hx.Config, rng *rand.Rand) {
 			unexplained++
 			exact, _ := lvParse(ask("100", append(append([][]byte{}, segs...), lvTerminator.wire)), ncmdOf(st))
 			r.Fail(hx.Failure{Kind: "oracle", Signature: "bb-live-segmentation-replies",
-				What: fmt.Sprintf("stream %s cut at %v (%s): replies %s, but %s when sent one command per segment — across the hand-over to live mode the reply bytes depend on where the request stream was cut (not explained by the commands the pinned model leaves unhandled)",
+				What: fmt.Sprintf("stream %s cut at %v (%s): replies %s, but %s when sent one command per segment — across the hand-over to live mode the reply bytes depend on where the request stream was cut (nor is it what the hand-over before the repairs would have answered)",
 					q(st.bytes()), j.offs, j.kind, strconv.Quote(j.got), strconv.Quote(fullRef[j.si])),
 				Case: map[string]interface{}{"stream": st.String(), "bytes": q(st.bytes()), "cuts": j.offs, "kind": j.kind, "model_handled": exact.handled},
 				Impl: strconv.Quote(j.got), Model: strconv.Quote(fullRef[j.si])})
